@@ -111,6 +111,11 @@ func propC06(c *Ctx, r *Report) {
 	runErrflow(c, eff, r, map[*ssa.Function]bool{irt: true}, "C06-R4/replay-check-errors", false)
 
 	ruleInsertOnly(c, r, cat, "C06-R5/insert-only")
+	// the boundary of the holding window is read from pn_rate: only a graded block writes there
+	r.rule("C06-R11/window-marker-writers", 1, "pn_rate is written by the rate insert of a graded block only")
+	ruleTableWriters(c, cat, r, "C06-R11/window-marker-writers", "pn_rate", []writerSpec{{"pegnet.Pegnet.insertRate|pegnet.Pegnet.InsertRates", "INSERT", ""}}, true)
+	r.rule("C06-R3/replay-predicate", 1, "the replay check asks for any relation row of the entry hash")
+	ruleReplayPredicate(c, r, cat, "C06-R3/replay-predicate")
 
 	// considered exactly once (lower half): the window loop visits every height and every batch of it
 	r.rule("C06-R10/window-complete", 3, "the holding window is walked to its end")
